@@ -80,11 +80,12 @@ ToViewer(a, h) == [via |-> a, to |-> 0 - a, hdr |-> h]
 
 SocksBad == {"badrsv", "badfrag", "badatyp", "shortsocks"}   \* not a SOCKS5 UDP request
 LludpBad == {"short", "unkmsg"}                              \* cannot be decoded at all
-CKinds == {"msg", "kill", "ucc", "banned", "badbody", "dom"} \cup SocksBad \cup LludpBad
-HKinds == {"msg", "kill", "ucc", "spoof", "banned", "badbody"} \cup LludpBad
+Kill == {"killc", "killd"}                                   \* CloseCircuit, DisableSimulator
+CKinds == {"msg", "ucc", "banned", "badbody", "dom"} \cup Kill \cup SocksBad \cup LludpBad
+HKinds == {"msg", "ucc", "spoof", "banned", "badbody"} \cup Kill \cup LludpBad
 
 \* ch: a choice the property leaves to the implementation, bound to what is observed:
-\*   kill: whether CloseCircuit / DisableSimulator makes the proxy regard the circuit as no longer open
+\*   killc / killd: whether CloseCircuit / DisableSimulator makes the proxy regard the circuit as no longer open
 \*   ucc : whether a UseCircuitCode naming a pending session claims it although the addressed
 \*         far host is no registered region of that session (no circuit can be opened then)
 Ev(n, a, h, k, s, ch) == [n |-> n, a |-> a, h |-> h, k |-> k, s |-> s, ch |-> ch]
@@ -119,7 +120,7 @@ OnCircuit(a, h, k, dirn, ch) ==
     IF HasCircuit(a, h)
     THEN /\ out' = [sends |-> <<IF dirn = "C" THEN ToSim(a, h) ELSE ToViewer(a, h)>>,
                     may |-> (circ[cs][h] = "dead" \/ k = "badbody" \/ (k = "banned" /\ dirn = "C"))]
-         /\ circ' = IF k = "kill" /\ ch THEN [circ EXCEPT ![cs][h] = "dead"] ELSE circ
+         /\ circ' = IF k \in Kill /\ ch THEN [circ EXCEPT ![cs][h] = "dead"] ELSE circ
          /\ UNCHANGED <<st, regs, sess>>
     ELSE Discard
 
@@ -141,7 +142,7 @@ Client(a, h, k, s, ch) ==
     /\ ev' = Ev("C", a, h, k, s, ch)
     /\ k = "ucc" => (sess[a] # NoSess => s = sess[a])   \* a viewer names its own session
     /\ k # "ucc" => s = NoSess
-    /\ ch => \/ (k = "kill" /\ IsOpen(a, h))
+    /\ ch => \/ (k \in Kill /\ IsOpen(a, h))
              \/ (k = "ucc" /\ CanClaim(a, s) /\ h \notin regs[s])
     /\ IF k \in SocksBad \cup LludpBad \cup {"dom"} THEN Discard
        ELSE IF k = "ucc" THEN UseCircuit(a, h, s, ch)
@@ -155,7 +156,7 @@ Host(a, h, k, s, ch) ==
     /\ ev' = Ev("H", a, h, k, s, ch)
     /\ k # "ucc" => s = NoSess
     /\ k = "spoof" => h = Unk
-    /\ ch => (k = "kill" /\ IsOpen(a, h))
+    /\ ch => (k \in Kill /\ IsOpen(a, h))
     /\ IF k \in LludpBad \cup {"banned", "spoof"} THEN Discard
        ELSE OnCircuit(a, h, k, "H", ch)
 
@@ -197,7 +198,7 @@ GhostsRight == [][GhostOK']_vars
 
 \* exactly once on an open circuit (pre-state), UseCircuitCode judged on the post-state
 OpenBefore == ev'.h \in Sims /\ sess[ev'.a] # NoSess /\ circ[sess[ev'.a]][ev'.h] = "open"
-DeliveredOnce == [][(ev'.n \in {"C", "H"} /\ (ev'.k \in {"msg", "kill"} \/ (ev'.n = "H" /\ ev'.k = "ucc")) /\ OpenBefore)
+DeliveredOnce == [][(ev'.n \in {"C", "H"} /\ (ev'.k \in {"msg"} \cup Kill \/ (ev'.n = "H" /\ ev'.k = "ucc")) /\ OpenBefore)
                       => (out'.may = FALSE /\ Len(out'.sends) = 1)]_vars
 UseCircuitRule == [][(ev'.n = "C" /\ ev'.k = "ucc") =>
                       /\ (out'.sends # <<>>) <=> (sess'[ev'.a] # NoSess /\ ev'.h \in regs[sess'[ev'.a]]
@@ -219,7 +220,7 @@ DiscardsInert == [][(ev'.n \in {"C", "H"} /\ DiscardClass) => Inert]_vars
 \* a datagram that is delivered exactly once leaves an open circuit open unless it is one of those two
 NoCrossTalk == [][ev'.n \in {"C", "H"} =>
                     \A s \in Sess : s # sess'[ev'.a] => (st'[s] = st[s] /\ circ'[s] = circ[s] /\ regs'[s] = regs[s])]_vars
-OnlyNamedChanges == [][(ev'.n \in {"C", "H"} /\ ~IsViewerUCC /\ ~(ev'.k = "kill" /\ ev'.ch)) => UNCHANGED pvars]_vars
+OnlyNamedChanges == [][(ev'.n \in {"C", "H"} /\ ~IsViewerUCC /\ ~(ev'.k \in Kill /\ ev'.ch)) => UNCHANGED pvars]_vars
 \* a claim happens only through a viewer's UseCircuitCode naming a pending session; with a registered
 \* region as destination it is not optional
 ClaimRule == [][(ev'.n = "C" /\ ev'.k = "ucc" /\ CanClaim(ev'.a, ev'.s) /\ ev'.h \in regs[ev'.s])
